@@ -47,7 +47,7 @@ LEVEL_TEXT = ("Theorems (Coq, closed under the global context): for every well-f
               "column table, footer / trailer shape incl. the missing final newline), hence (composed with the load theorems) loading it returns nev events "
               "of mult particles, counts [(label, mult)], format Oscar2013 resp. the trailer's sigmaGen. "
               "The loader models and the template interpreter are run against the real readers / writers on every run together with independent re-parse oracles.")
-LEVEL_NOTE = ("Hand-written loader models at token level (tied by correspondence, not regenerated); tables and writer templates regenerated; oracles for float()/int()/PDG/sqrt/%g/str(int); "
+LEVEL_NOTE = ("Hand-written loader models at token level (run side by side with the real readers AND, since session 4, proved equal to the method bodies of OscarLoader.py / JetscapeLoader.py / Particle.py regenerated on every run - see SOURCE TIES below); tables and writer templates regenerated; oracles for float()/int()/PDG/sqrt/%g/str(int); "
               "char-level substring semantics proved for blank-free and blank-delimited patterns (Lib/Split.v), two raw tests by correspondence. "
               "Generator theorems: hole texts are opaque tokens (no char-level theorem that %g/%d output is blank-free), the writers' sampling code and value formatting are not modelled, "
               "JETSCAPE writers are hadron files only (N_hadrons), all events of one file have the same multiplicity because the writers take a single int; "
